@@ -176,6 +176,11 @@ def run_mode(mode, peer, kind, base, maxrep, reply_fn, env, use_fetch=False, all
         else:
             itr = GetNextIter(shim, base) if kind == "next" else GetBulkIter(shim, base, maxrep)
         while len(out.yields) <= walks.CAP:
+            # (callers consume a walk in pieces: each piece starts with iter(it), which must be the same walk)
+            if len(out.yields) % 3 == 2:
+                ri = e2e.ncall(lambda: iter(itr))
+                if ri[0] == "ok":
+                    itr = ri[1]
             r = e2e.ncall(lambda: next(itr))
             if r[0] == "exc":
                 out.ending = "stop" if r[1] == "StopIteration" else r
@@ -289,6 +294,13 @@ def run(chk, model_ok=True):
             distinct.add((mode, kind, use_fetch, len(mib), base, len(want), maxrep, cap))
             if len(samples) < 5 and want:
                 samples.append({**detail, "yields": [o for o, _ in want][:6]})
+    # a walk is only complete if the agent is asked for what the caller asked: max-repetitions of every GetBulk of a
+    # call history (0 / None = the session default)
+    from props import c03
+    for desc, why in c03.maxrep_histories(rng, env, 5 if quick else 100):
+        n_walks += 1
+        if why:
+            fail(f"{desc}: {why}", {"history": desc})
     st = streams.Streams(chk, model_ok)
     st.add("walk", gens.lines_walk(rng, 4500 if quick else 60000))
     st.add("cmp", gens.lines_cmp(rng, 4500 if quick else 60000))
